@@ -228,6 +228,26 @@ pub fn run_c19(out: &mut Out, tier: &str, seed: u64) {
         let b: Value = sonic_rs::from_str(r#"{"a":1,"b":2}"#).unwrap();
         out.case("expect", &["F7 witness: {a:1,a:2}=={a:1,b:2} is symmetric"], if (a == b) == (b == a) { "true" } else { "false" }, true);
     }
+    // reflexivity does not depend on member names being distinct: documents with repeated names compare equal to
+    // themselves, to their clone, to a second parse of the same text, also when nested in another container
+    {
+        let cfgd = Cfg { dup_free: false, max_depth: 3, ..Cfg::default() };
+        let mut texts: Vec<Vec<u8>> = [r#"{"a":1,"a":2}"#, r#"[0,{"id":7,"tags":["x"],"id":8}]"#, r#"{"k":{"x":null,"x":false},"k":[]}"#, r#"{"a":1,"b":2,"a":1}"#]
+            .iter().map(|t| t.as_bytes().to_vec()).collect();
+        for _ in 0..(if tier == "thorough" { 6000 } else { 800 }) {
+            let g = gen::gen_doc(&mut rng, &cfgd);
+            texts.push(gen::render_doc(&g, &mut rng, &cfgd));
+        }
+        for doc in texts {
+            let Ok(a) = sonic_rs::from_slice::<Value>(&doc) else { continue };
+            let Ok(a2) = sonic_rs::from_slice::<Value>(&doc) else { continue };
+            let cl = a.clone();
+            let (na, na2): (Value, Value) = (Value::from(vec![a.clone(), Value::from(1u64)]), Value::from(vec![a2.clone(), Value::from(1u64)]));
+            let r = (a == a, a == cl, cl == a, a == a2, a2 == a, na == na2);
+            out.count("eqreflexive");
+            out.case("expect", &["equality is reflexive (repeated member names allowed)", &hex(&doc)], &if r == (true, true, true, true, true, true) { "true".to_string() } else { format!("{r:?}") }, true);
+        }
+    }
     // equality laws on pairs of DOM values built in different ways
     let cfg = Cfg { dup_free: true, max_depth: 3, ..Cfg::default() };
     for _ in 0..(if tier == "thorough" { 10000 } else { 1500 }) {
